@@ -819,8 +819,32 @@ def binop(I: Interp, op: ast.operator, a: V, b: V) -> V:
         # operand of an arithmetic operator); every other unmodelled combination - bytes % x,
         # str % tuple, objects with operator methods ... - is outside the subset, never an
         # exception of the program
-        if (a is NONE or b is NONE) and not isinstance(a, (VObj, VConst)) \
-                and not isinstance(b, (VObj, VConst)):
+        def kind(v: V) -> str:
+            if v is NONE:
+                return "none"
+            if isinstance(v, VBytes):
+                return "bytes"
+            if isinstance(v, VStr):
+                return "str"
+            if isinstance(v, (VInt, VBool)):
+                return "int"
+            if isinstance(v, VFloat):
+                return "float"
+            if isinstance(v, VList):
+                return "list"
+            if isinstance(v, VTuple):
+                return "tuple"
+            return "other"
+        ka, kb = kind(a), kind(b)
+        undefined = False
+        if "other" not in (ka, kb):
+            if "none" in (ka, kb):
+                undefined = True
+            elif isinstance(op, (ast.Add, ast.Sub)):
+                undefined = ka != kb and {ka, kb} not in ({"int", "float"},)
+            elif isinstance(op, ast.Mult):
+                undefined = "int" not in (ka, kb) and {ka, kb} != {"float"}
+        if undefined:
             I.raise_py(TypeError, f"unsupported operand type(s) for {type(op).__name__}: "
                                   f"'{type_name(a)}' and '{type_name(b)}'")
         raise Unsupported(f"binop {type(op).__name__} on {a!r}, {b!r}")
